@@ -329,6 +329,12 @@ Proof.
   - cbn. lia.
 Qed.
 
+(* first steps of the same theorems WITH savers (not finished, see design_notes/C06.md B.2): the mailbox-level
+   invariant for several subscribers (the box is the part of the stream the slowest subscriber has not read: MokM, with
+   has_msg_multi / take_multi / push_multi / wait_multi / read_multi for the lock regions) and the thread-local code of a
+   saver over a segment of the stream (saver_loop: all saved / fails at chunk fp / closes with all N chunks / close fails) *)
+From SV Require Import Proof.MailboxFailMulti.
+
 (* ---------- full statements (for the repaired code, fx = true) ---------- *)
 
 (* chains of any length, any capacities >= 1, lazy or eager, any number of savers per mailbox: a failure at any
